@@ -13,3 +13,9 @@ use crate::compiler::TimeZone;
 fn mk(opcode: ast::Opcode) -> Op {
     Op { lhs: Box::new(Expr::Noop(Noop)), rhs: Box::new(Expr::Noop(Noop)), opcode }
 }
+
+#[cfg(test)]
+mod playback {
+    use super::*;
+    include!("/verif/.cache/playback/op.rs");
+}
